@@ -57,7 +57,7 @@ impl P {
             P::All => "all".into(),
             P::AllChar => "allchar".into(),
             P::SigPlus => "sigplus".into(),
-            P::Rng(l, h) => format!("r{}{}", l, h),
+            P::Rng(l, h) => format!("r{:x}{:x}", l, h),
             P::Ch(c) => format!("ch({})", c),
             P::Cs(l, h) => format!("cs({},{})", l, h),
             P::Str(w) => format!("str({})", codes(w)),
@@ -150,6 +150,13 @@ fn parse_list(b: &[char], pos: &mut usize) -> Result<Vec<Rc<P>>, String> {
     Ok(v)
 }
 fn parse_p(b: &[char], pos: &mut usize) -> Result<P, String> {
+    // region ranges r<l><h> (hex digits): no constructor name starts with 'r'
+    if *pos + 2 < b.len() + 0 && b[*pos] == 'r' && b[*pos + 1].is_ascii_hexdigit() && b[*pos + 2].is_ascii_hexdigit() {
+        let l = b[*pos + 1].to_digit(16).unwrap() as u8;
+        let h = b[*pos + 2].to_digit(16).unwrap() as u8;
+        *pos += 3;
+        return Ok(P::Rng(l, h));
+    }
     let id = parse_ident(b, pos);
     match id.as_str() {
         "none" => Ok(P::None),
@@ -158,9 +165,9 @@ fn parse_p(b: &[char], pos: &mut usize) -> Result<P, String> {
         "allchar" => Ok(P::AllChar),
         "sigplus" => Ok(P::SigPlus),
         "r" => {
-            if *pos + 1 < b.len() && b[*pos].is_ascii_digit() && b[*pos + 1].is_ascii_digit() {
-                let l = b[*pos].to_digit(10).unwrap() as u8;
-                let h = b[*pos + 1].to_digit(10).unwrap() as u8;
+            if *pos + 1 < b.len() && b[*pos].is_ascii_hexdigit() && b[*pos + 1].is_ascii_hexdigit() {
+                let l = b[*pos].to_digit(16).unwrap() as u8;
+                let h = b[*pos + 1].to_digit(16).unwrap() as u8;
                 *pos += 2;
                 Ok(P::Rng(l, h))
             } else {
